@@ -36,6 +36,14 @@ CLAIMED = {
             "Generated-input search over (host, fragment, boundary) triples; records outside the fragment's rows, shifted back, must equal the host's records (multisets, plain and -i). Exploration.",
             "Independence precondition decided on identifier pools (fragment identifiers carry a reserved prefix). Crashing/hanging runs are discarded and counted.",
             "DESIGN.md §4 C11"),
+    "C13": ("property-based testing (Hypothesis: generated programs with known binding occurrences + conservative corpus renamer x fresh names from random / edge-shape / hostile-word pools); metamorphic relation (alpha-renaming)",
+            "Generated-input search over (program, identifier, fresh name); output of the renamed program with the renaming inverted must equal the original output. Exploration.",
+            "Fresh-name preconditions are checked on the actual program and output. Known finding: class names without a lowercase letter.",
+            "DESIGN.md §4 C13"),
+    "C14": ("property-based testing (Hypothesis: keyword calls against user-defined and generated configured methods, all permutations); metamorphic relation (permutation invariance)",
+            "Generated-input search over keyword call sites (required/defaulted/missing/unknown/mistyped keys, with positionals); every permutation of the keyword arguments must give byte-identical -i output. Exploration.",
+            "One call site per program so inference order is fixed.",
+            "DESIGN.md §4 C14"),
 }
 
 PENDING_REASON = "check not built yet in this round (planned in DESIGN.md §3.11); no claim is made"
